@@ -148,9 +148,12 @@ func fatalClass(log string) string {
 	return "died"
 }
 
-// fatalSite names the otto function that recurses in a fatal stack overflow
-// dump (the most frequent otto frame among the first frames printed).
+// fatalSite names the otto function responsible for a fatal error: for a
+// stack overflow the most frequent otto frame among the frames printed (the
+// recursing function; ties go to the first seen), otherwise the innermost otto
+// frame of the dying goroutine (the allocating function).
 func fatalSite(log string) string {
+	overflow := strings.Contains(log, "stack overflow") || strings.Contains(log, "stack exceeds")
 	count := map[string]int{}
 	best, bestN := "?", 0
 	for _, l := range strings.Split(log, "\n") {
@@ -161,6 +164,9 @@ func fatalSite(log string) string {
 			l = l[:i]
 		}
 		f := shortFunc(l)
+		if !overflow {
+			return f
+		}
 		count[f]++
 		if count[f] > bestN {
 			best, bestN = f, count[f]
